@@ -1,6 +1,7 @@
 import HgVerif.Lemmas.SlotsSet
 import HgVerif.Lemmas.SlotsDict
 import HgVerif.Lemmas.SlotsDictV
+import HgVerif.Lemmas.SlotsDictPre
 import HgVerif.Lemmas.SlotsWin
 import HgVerif.Lemmas.SlotsFixed
 /-!
@@ -32,11 +33,14 @@ TSD (`TSD<Int, TS<Int>>`; value = live keys whose child has a value)
   `tsd_set_erase_no_trace`, `tsd_erase_set_no_trace`, `tsd_times`, `tsd_window_is_cycle`, `tsd_ghost_eq_fold`,
   `tsd_value_eq_fold`      : the same, at key level (floor).
 * `tsd_modified_subset_value`, `tsd_removed_readable` (ceiling).
-* value level: `TSDValueDeltaCoherent` is the FULL statement; `tsd_value_delta_incoherent` is a kernel-checked
-  counterexample (the real code fails the same history: a genuine defect); `tsd_value_delta_clean_partial`
-  (+ `tsd_vinv_reachable`, `tsd_vghost_is_cycle_start`) proves the statement for all clean histories;
-  `tsd_value_delta_partial` holds unconditionally.  `TSDKeySetCoherent` / `tsd_keyset_incoherent`: the
-  `key_set()` projection is not coherent when a key is created without a value (second defect).
+* value level: `tsd_value_delta_coherent : TSDValueDeltaCoherent` — the FULL statement (value' = previous value
+  with removed keys dropped and modified items written) for every history with non-decreasing times, for the
+  code WITH the repair of F-C05-1 (`restore_modified_mark`, `fixes/c05_f1.patch`); built on
+  `tsd_vinv_reachable`, `tsd_vghost_is_cycle_start`, `tsd_value_delta_mem`.
+  `tsd_value_delta_incoherent_prefix` documents on the pre-fix copy (`Lemmas/SlotsDictPre.lean`) why the repair
+  was needed.  `tsd_value_delta_partial` (modified items ⊆ value) holds unconditionally.
+  `TSDKeySetCoherent` / `tsd_keyset_incoherent`: the `key_set()` projection is not coherent when a key is
+  created without a value (known finding F-C05-2, not repaired).
 
 fixed TSL / TSB (ceiling; `TSL<TS<Int>, n>` driven, TSB shares `ts_data_fixed_structured_ops.cpp`)
 * `fixed_cycle_coherent`   : after the child writes of one cycle the children whose time equals the parent's
@@ -662,16 +666,20 @@ theorem tsd_value_eq_fold (ops : List DictOp) (k : Key) :
   rw [mem_applyDelta, ← tsd_ghost_eq_fold, ← GDict.run_x]
   exact (tsd_delta_coherent (tsd_inv_reachable ops)).1 k
 
-/-! ### TSD value level: the full statement, and why it is NOT a theorem of the code as it stands
+/-! ### TSD value level
 
 The canonical TSD delta is `Bundle{removed : Set<K>, modified : Map<K, delta(V)>}` (`ts_delta.h`), i.e. what
 `removed_keys()` and `modified_items()` show.  "The value observed at any tick equals the previous value
-with that tick's delta applied" therefore reads as `TSDValueDeltaCoherent` below.  The model (and the real
-code: replay `corpus/C05/tsddefects_01_rewrite.txt`, stream `tsd-defects`) violates it: when a key whose child was
-written in this cycle is erased and written again in the same cycle, the slot is resurrected
-(`reuse_existing_slot`), `remove_key` has cleared its `modified_` bit, and the second child write is not the
-first of its evaluation time, so `record_child_modified` is never called again: the key has a (new) value
-but is absent from `modified_items()`. -/
+with that tick's delta applied" therefore reads as `TSDValueDeltaCoherent` below, and it is a THEOREM of the
+code with the repair of finding F-C05-1 (`restore_modified_mark`, `fixes/c05_f1.patch`, modelled by
+`dMarkBits`): `tsd_value_delta_coherent`, for every history with non-decreasing times.
+
+Before the repair the statement was false (`tsd_value_delta_incoherent_prefix`, on the pre-fix copy of the
+insert path in `Lemmas/SlotsDictPre.lean`): when a key whose child was written in this cycle was erased and
+inserted again in the same cycle, the slot was resurrected (`reuse_existing_slot`), `remove_key` had cleared
+its `modified_` bit, and the next child write was not the first of its evaluation time, so
+`record_child_modified` was never called again: the key had a (new) value but was absent from
+`modified_items()`. -/
 
 def dictLookup (l : List (Key × Int)) (k : Key) : Option Int := (l.find? (fun p => p.1 == k)).map (·.2)
 
@@ -679,16 +687,25 @@ def dictLookup (l : List (Key × Int)) (k : Key) : Option Int := (l.find? (fun p
 def applyDictDelta (v : List (Key × Int)) (removed : List Key) (modified : List (Key × Int)) : List (Key × Int) :=
   modified ++ v.filter (fun p => !removed.contains p.1)
 
-/-- FULL statement of the property for TSD values (kept visible; it does not hold, see below) -/
+/-- FULL statement of the property for TSD values -/
 def TSDValueDeltaCoherent : Prop :=
   ∀ (ops : List DictOp) (o : DictOp), DNondecreasing (ops ++ [o]) → o.time ≠ 0 →
     ∀ k, dictLookup (TSD.run {} (ops ++ [o])).validItems k =
       dictLookup (applyDictDelta (TSD.run {} (ops.filter (fun a => a.time < o.time))).validItems
         ((TSD.run {} (ops ++ [o])).removedAt o.time) ((TSD.run {} (ops ++ [o])).modifiedItemsAt o.time)) k
 
-/-- kernel-checked counterexample (the same history fails on the real `TSOutput`): in one cycle
-    `set 1 := 10; erase 1; set 1 := 12` ends with value `{1: 12}`, `added = {1}`, and an EMPTY modified map -/
-theorem tsd_value_delta_incoherent : ¬ TSDValueDeltaCoherent := by
+/-- the same statement about the insert path as it was BEFORE the repair (`Lemmas/SlotsDictPre.lean`) -/
+def TSDValueDeltaCoherentPre : Prop :=
+  ∀ (ops : List DictOp) (o : DictOp), DNondecreasing (ops ++ [o]) → o.time ≠ 0 →
+    ∀ k, dictLookup (TSD.runPre {} (ops ++ [o])).validItems k =
+      dictLookup (applyDictDelta (TSD.runPre {} (ops.filter (fun a => a.time < o.time))).validItems
+        ((TSD.runPre {} (ops ++ [o])).removedAt o.time) ((TSD.runPre {} (ops ++ [o])).modifiedItemsAt o.time)) k
+
+/-- why the repair was needed: kernel-checked counterexample for the pre-fix code (the same history failed on
+    the real `TSOutput` before `fixes/c05_f1.patch`; it is now the regression case
+    `corpus/C05/tsd_02_rewrite_after_erase.txt`): in one cycle `set 1 := 10; erase 1; set 1 := 12` ended with
+    value `{1: 12}`, `added = {1}`, and an EMPTY modified map -/
+theorem tsd_value_delta_incoherent_prefix : ¬ TSDValueDeltaCoherentPre := by
   intro h
   have := h [.set 1 1 10, .erase 1 1] (.set 1 1 12) (by simp [DNondecreasing, DictOp.time]) (by decide) 1
   revert this
@@ -710,19 +727,7 @@ theorem tsd_value_delta_partial (ops : List DictOp) (p : Key × Int)
   refine ⟨sget (TSD.run {} ops).keys.slots i, ⟨hs, ?_⟩, rfl⟩
   simp [Slot.member, (o2 hpub).1, (o2 hpub).2]
 
-/-! #### what is proved instead (`…_partial`): the value-level statement for CLEAN histories
-
-A history is *clean* when times never decrease and no key is inserted (`set` / `at`) while a pending-erase
-slot still holds that key with a child written at this very time — i.e. the key was not written and then
-erased earlier in the same cycle.  For clean histories the full value-level statement holds; so the
-rewrite-after-erase pattern above is the ONLY way the TSD delta loses a change (for `set/at/erase/clear/
-touch` histories over `TS<Int>` children).  Missing for the unrestricted statement: the code would have to
-mark a resurrected slot modified when its child was already written in the cycle. -/
-
-/-- clean histories, as a predicate on the run (the state each operation is applied to) -/
-def CleanHistory : TSD → List DictOp → Prop
-  | _, [] => True
-  | x, o :: rest => (o.time ≠ 0 → x.deltaTime ≤ o.time) ∧ x.cleanOp o ∧ CleanHistory (x.step o) rest
+/-! #### the item ghost -/
 
 structure GDictV where
   x : TSD := {}
@@ -750,19 +755,20 @@ theorem GDictV.run_keys (ops : List DictOp) :
     rw [TSD.vghost_fst, ih.1, ih.2]
     exact ⟨rfl, rfl⟩
 
-theorem tsd_vinv_fold (ops : List DictOp) : ∀ (g : GDictV), g.x.VInv g.w0 → CleanHistory g.x ops →
-    (ops.foldl GDictV.step g).x.VInv (ops.foldl GDictV.step g).w0 := by
-  induction ops with
-  | nil => intro g h _; exact h
-  | cons o rest ih =>
-    intro g h hcl
-    simp only [List.foldl_cons]
-    exact ih (g.step o) (TSD.step_vinv h o hcl.1 hcl.2.1) hcl.2.2
-
-/-- every state reached by a clean history satisfies the value-level invariant -/
-theorem tsd_vinv_reachable (ops : List DictOp) (hc : CleanHistory {} ops) :
-    (GDictV.run ops).x.VInv (GDictV.run ops).w0 :=
-  tsd_vinv_fold ops {} TSD.VInv_empty hc
+/-- every state reached by a history with non-decreasing times satisfies the value-level invariant relative
+    to the item ghost -/
+theorem tsd_vinv_reachable (ops : List DictOp) (hs : DNondecreasing ops) :
+    (GDictV.run ops).x.VInv (GDictV.run ops).w0 := by
+  induction ops using snoc_ind with
+  | h0 => exact TSD.VInv_empty
+  | hs l o ih =>
+    have hsl : DNondecreasing l := (List.pairwise_append.mp hs).1
+    have e1 : GDictV.run (l ++ [o]) = (GDictV.run l).step o := by simp [GDictV.run, List.foldl_append]
+    rw [e1]
+    apply TSD.step_vinv (ih hsl) o
+    intro _
+    rw [(GDictV.run_keys l).2, tsd_times l]
+    exact dmaxTime_le_of_sorted hs
 
 /-- with non-decreasing times the item ghost is the value (valid items) at the previous tick -/
 theorem tsd_vghost_is_cycle_start (ops : List DictOp) (o : DictOp) (hs : DNondecreasing (ops ++ [o]))
@@ -808,39 +814,10 @@ theorem tsd_vghost_is_cycle_start (ops : List DictOp) (o : DictOp) (hs : DNondec
         intro a ha; simpa using hall a ha
       rw [this]
 
-/-- executable form of the clean-history condition (what the generator of the `tsd` stream enforces) -/
-def TSD.cleanForB (x : TSD) (t : Time) (k : Key) : Bool :=
-  x.keys.slots.all (fun s => !(s.st == .pending && s.key == k && s.clmt == t))
-
-theorem TSD.cleanFor_of_B {x : TSD} {t : Time} {k : Key} (h : x.cleanForB t k = true) : x.cleanFor t k := by
-  intro i hp hk hc
-  have hi : i < x.keys.slots.length := lt_of_st_ne_free (by rw [hp]; decide)
-  have := (List.all_eq_true.mp h) _ (sget_mem hi)
-  simp [hp, hk, hc] at this
-
-def cleanHistoryB : TSD → List DictOp → Bool
-  | _, [] => true
-  | x, o :: rest =>
-    (o.time == 0 || decide (x.deltaTime ≤ o.time)) &&
-    (match o with | .set t k _ => x.cleanForB t k | .at t k => x.cleanForB t k | _ => true) &&
-    cleanHistoryB (x.step o) rest
-
-theorem cleanHistory_of_B : ∀ (ops : List DictOp) (x : TSD), cleanHistoryB x ops = true → CleanHistory x ops
-  | [], _, _ => trivial
-  | o :: rest, x, h => by
-    simp only [cleanHistoryB, Bool.and_eq_true, Bool.or_eq_true, beq_iff_eq, decide_eq_true_eq] at h
-    refine ⟨fun h0 => h.1.1.resolve_left h0, ?_, cleanHistory_of_B rest _ h.2⟩
-    cases o with
-    | set t k v => exact TSD.cleanFor_of_B h.1.2
-    | «at» t k => exact TSD.cleanFor_of_B h.1.2
-    | erase t k => trivial
-    | clear t => trivial
-    | touch t => trivial
-
-/-- **value' = previous value with the delta applied (TSD, clean histories)**: an item is in the value iff
-    it is a modified item, or it was in the value at the start of the cycle and its key is neither removed
-    nor modified -/
-theorem tsd_value_delta_clean_partial {x : TSD} {W0 : List (Key × Int)} (h : x.VInv W0) (p : Key × Int) :
+/-- value' = previous value with the delta applied, in membership form: an item is in the value iff it is a
+    modified item, or it was in the value at the start of the cycle and its key is neither removed nor
+    modified -/
+theorem tsd_value_delta_mem {x : TSD} {W0 : List (Key × Int)} (h : x.VInv W0) (p : Key × Int) :
     p ∈ x.validItems ↔
       p ∈ modifiedItemsRaw x.keys.slots ∨
       (p ∈ W0 ∧ p.1 ∉ removedKeysRaw x.keys.slots ∧ p.1 ∉ (modifiedItemsRaw x.keys.slots).map (·.1)) := by
@@ -906,6 +883,141 @@ theorem tsd_value_delta_clean_partial {x : TSD} {W0 : List (Key × Int)} (h : x.
       have : ((sget x.keys.slots i).key, (sget x.keys.slots i).cval) = p :=
         h.uniqW _ hw' _ hw hk
       exact mem_validItems.mpr ⟨i, hl, hc, hk, by rw [← this]⟩
+
+/-! #### from membership to lookups -/
+
+theorem dictLookup_some_iff {l : List (Key × Int)} (hu : ∀ p ∈ l, ∀ q ∈ l, p.1 = q.1 → p = q) (k : Key) (v : Int) :
+    dictLookup l k = some v ↔ (k, v) ∈ l := by
+  unfold dictLookup
+  constructor
+  · intro h
+    cases hf : l.find? (fun p => p.1 == k) with
+    | none => simp [hf] at h
+    | some a =>
+      simp only [hf, Option.map_some, Option.some.injEq] at h
+      have hm := List.mem_of_find?_eq_some hf
+      have hk : a.1 = k := by simpa using List.find?_some hf
+      have : a = (k, v) := Prod.ext hk h
+      exact this ▸ hm
+  · intro hm
+    cases hf : l.find? (fun p => p.1 == k) with
+    | none =>
+      have := List.find?_eq_none.mp hf (k, v) hm
+      simp at this
+    | some a =>
+      have hma := List.mem_of_find?_eq_some hf
+      have hk : a.1 = k := by simpa using List.find?_some hf
+      have : a = (k, v) := hu a hma (k, v) hm hk
+      simp [this]
+
+theorem dictLookup_none_iff (l : List (Key × Int)) (k : Key) : dictLookup l k = none ↔ k ∉ l.map (·.1) := by
+  unfold dictLookup
+  simp only [Option.map_eq_none_iff, List.find?_eq_none, List.mem_map, not_exists, not_and]
+  constructor
+  · intro h p hp hk; exact absurd (by simpa using hk) (h p hp)
+  · intro h p hp; simpa using h p hp
+
+theorem dictLookup_append (a b : List (Key × Int)) (k : Key) :
+    dictLookup (a ++ b) k = (dictLookup a k).or (dictLookup b k) := by
+  unfold dictLookup
+  rw [List.find?_append]
+  cases a.find? (fun p => p.1 == k) <;> simp
+
+/-- **value' = previous value with the delta applied (TSD)** — the full statement, for every history with
+    non-decreasing times (code with the F-C05-1 repair) -/
+theorem tsd_value_delta_coherent : TSDValueDeltaCoherent := by
+  intro ops o hs h0 k
+  have hsorted : DNondecreasing (ops ++ [o]) := hs
+  have h := tsd_vinv_reachable (ops ++ [o]) hs
+  have hw0 := tsd_vghost_is_cycle_start ops o hs h0
+  obtain ⟨_, hstruct, _, hrem⟩ := tsd_window_is_cycle ops o hs h0
+  rw [GDictV.run_x] at h
+  rw [hw0] at h
+  generalize hcur : TSD.run {} (ops ++ [o]) = cur at h hstruct hrem
+  generalize hprev : (TSD.run {} (ops.filter (fun a => a.time < o.time))).validItems = W0 at h
+  have hdt : cur.deltaTime = o.time := by
+    have : (t : Nat) → cur.structAt t = true → cur.deltaTime = t := by
+      intro t ht; simp only [TSD.structAt, Bool.and_eq_true, beq_iff_eq] at ht; exact ht.2
+    exact this _ hstruct
+  -- the modified items shown at `o.time` are the raw modified items
+  have hmod : cur.modifiedItemsAt o.time = modifiedItemsRaw cur.keys.slots := by
+    unfold TSD.modifiedItemsAt
+    by_cases hm : cur.modifiedAt o.time = true
+    · simp [hm]
+    · simp only [hm, Bool.false_eq_true, ↓reduceIte]
+      symm
+      apply List.eq_nil_iff_forall_not_mem.mpr
+      intro p hp
+      simp only [modifiedItemsRaw, List.mem_map, List.mem_filter] at hp
+      obtain ⟨s, ⟨hs', hb⟩, _⟩ := hp
+      obtain ⟨i, _, rfl⟩ := exists_sget_of_mem hs'
+      simp only [Bool.and_eq_true, beq_iff_eq] at hb
+      obtain ⟨_, _, _, _, _, v6, v7⟩ := h.vslot i
+      have h6 := v6 hb.2
+      have h7 := v7 (by rw [hb.1]; decide)
+      have hl := h.lmt_le
+      apply hm
+      simp only [TSD.modifiedAt, Bool.and_eq_true, bne_iff_ne, ne_eq, beq_iff_eq]
+      exact ⟨h0, by omega⟩
+  rw [hmod, hrem]
+  -- uniqueness of keys in the three lists
+  have hmodmem : ∀ q : Key × Int, q ∈ modifiedItemsRaw cur.keys.slots →
+      ∃ i, (sget cur.keys.slots i).st = .live ∧ (sget cur.keys.slots i).key = q.1 ∧
+        (sget cur.keys.slots i).cval = q.2 := by
+    intro q hq
+    simp only [modifiedItemsRaw, List.mem_map, List.mem_filter] at hq
+    obtain ⟨s, ⟨hs', hb⟩, rfl⟩ := hq
+    obtain ⟨i, _, rfl⟩ := exists_sget_of_mem hs'
+    simp only [Bool.and_eq_true, beq_iff_eq] at hb
+    exact ⟨i, hb.1, rfl, rfl⟩
+  have huv : ∀ p ∈ cur.validItems, ∀ q ∈ cur.validItems, p.1 = q.1 → p = q := by
+    intro p hp q hq hpq
+    obtain ⟨i, hil, _, hik, hiv⟩ := mem_validItems.mp hp
+    obtain ⟨j, hjl, _, hjk, hjv⟩ := mem_validItems.mp hq
+    have : i = j := h.inv.wf.uniq i j (by rw [hil]; decide) (by rw [hjl]; decide) (by rw [hik, hjk, hpq])
+    subst this
+    exact Prod.ext hpq (by rw [← hiv, ← hjv])
+  have hum : ∀ p ∈ modifiedItemsRaw cur.keys.slots, ∀ q ∈ modifiedItemsRaw cur.keys.slots, p.1 = q.1 → p = q := by
+    intro p hp q hq hpq
+    obtain ⟨i, hil, hik, hiv⟩ := hmodmem p hp
+    obtain ⟨j, hjl, hjk, hjv⟩ := hmodmem q hq
+    have : i = j := h.inv.wf.uniq i j (by rw [hil]; decide) (by rw [hjl]; decide) (by rw [hik, hjk, hpq])
+    subst this
+    exact Prod.ext hpq (by rw [← hiv, ← hjv])
+  have huf : ∀ p ∈ W0.filter (fun p => !(removedKeysRaw cur.keys.slots).contains p.1),
+      ∀ q ∈ W0.filter (fun p => !(removedKeysRaw cur.keys.slots).contains p.1), p.1 = q.1 → p = q := by
+    intro p hp q hq hpq
+    exact h.uniqW p (List.mem_filter.mp hp).1 q (List.mem_filter.mp hq).1 hpq
+  apply Option.ext
+  intro v
+  unfold applyDictDelta
+  rw [dictLookup_append]
+  have hL : dictLookup cur.validItems k = some v ↔ (k, v) ∈ cur.validItems := dictLookup_some_iff huv k v
+  have hM : dictLookup (modifiedItemsRaw cur.keys.slots) k = some v ↔ (k, v) ∈ modifiedItemsRaw cur.keys.slots :=
+    dictLookup_some_iff hum k v
+  have hF := dictLookup_some_iff huf k v
+  have hN := dictLookup_none_iff (modifiedItemsRaw cur.keys.slots) k
+  have hmain := tsd_value_delta_mem h (k, v)
+  rw [hL, hmain]
+  cases hlm : dictLookup (modifiedItemsRaw cur.keys.slots) k with
+  | none =>
+    have hnk := hN.mp hlm
+    simp only [Option.none_or] at *
+    rw [hF]
+    simp only [List.mem_filter, Bool.not_eq_eq_eq_not, Bool.not_true, List.contains_eq_mem, decide_eq_false_iff_not]
+    constructor
+    · rintro (hm | ⟨hw, hr, _⟩)
+      · exact absurd (List.mem_map.mpr ⟨(k, v), hm, rfl⟩) hnk
+      · exact ⟨hw, hr⟩
+    · rintro ⟨hw, hr⟩; exact Or.inr ⟨hw, hr, hnk⟩
+  | some v' =>
+    have hmv' : (k, v') ∈ modifiedItemsRaw cur.keys.slots := (dictLookup_some_iff hum k v').mp hlm
+    simp only [Option.some_or, Option.some.injEq]
+    constructor
+    · rintro (hm | ⟨_, _, hnm⟩)
+      · exact (congrArg Prod.snd (hum _ hmv' _ hm rfl) : v' = v)
+      · exact absurd (List.mem_map.mpr ⟨(k, v'), hmv', rfl⟩) hnm
+    · intro e; subst e; exact Or.inl hmv'
 
 /-- the `key_set()` projection read as a TSS: value = live keys, delta gated by the key set's own
     `last_modified_time`.  FULL statement (does not hold, see below). -/
@@ -1227,19 +1339,12 @@ example :
     let x := TSD.run {} [.set 1 1 10, .set 1 2 20, .set 2 1 11]
     (2 ≤ x.deltaTime) ∧ (7 ∉ x.validKeys) ∧ (2 ∈ x.validKeys) := by decide
 
-/-- a clean history with a remove + re-insert (key 2 erased and set again in cycle 2, not written before the
-    erase), an update and an add-then-erase: hypotheses of `tsd_vinv_reachable` / `tsd_value_delta_clean_partial`;
-    and the rewrite-after-erase history is NOT clean -/
+/-- hypotheses of `tsd_vinv_reachable` / `tsd_value_delta_coherent`: a sorted history ending with the
+    rewrite-after-erase pattern; the rewritten key is a modified item -/
 example :
-    CleanHistory {} [.set 1 1 10, .set 1 2 20, .erase 2 2, .set 2 2 21, .set 2 1 11, .set 2 3 30, .erase 2 3] ∧
-    cleanHistoryB {} [.set 1 1 10, .erase 1 1, .set 1 1 12] = false :=
-  ⟨cleanHistory_of_B _ _ (by decide), by decide⟩
-
-/-- hypotheses of `fixed_cycle_coherent`: a 3-child list after a first cycle, second cycle writes children 1 and 1 -/
-example :
-    let x := (Fixed.init 3).cycle 1 [(0, 5), (2, 7)]
-    x.lmt < 2 ∧ (∀ w ∈ [((1 : Nat), (9 : Int)), (1, 4)], w.1 < x.kids.length) ∧
-    (x.cycle 2 [(1, 9), (1, 4)]).kids = [(5, 1), (4, 2), (7, 1)] := by decide
+    DNondecreasing ([.set 1 1 10, .set 1 2 20, .set 2 1 11, .erase 2 1] ++ [DictOp.set 2 1 13]) ∧
+    (TSD.run {} [.set 1 1 10, .set 1 2 20, .set 2 1 11, .erase 2 1, .set 2 1 13]).modifiedItemsAt 2 = [(1, 13)] :=
+  ⟨by simp [DNondecreasing, DictOp.time], by decide⟩
 
 /-- a window of period 3 after 5 pushes and the hypotheses of `window_evicted` for a sixth -/
 example :
